@@ -39,16 +39,21 @@ IsPos(a)  == (a.s = "fin" /\ a.m > 0) \/ a.s = "inf"
 \* (|m| < 2^14, e <= 8; products and aligned sums then stay below 2^31, and every
 \* such value is an exact IEEE-754 double with an exact short decimal expansion).
 \* Larger literals may appear as operands of index / comparison only.
-Small(a)  == a.s # "fin" \/ (Abs(a.m) < 2^14 /\ a.e <= 8)
+\* s = "big": a finite integer of magnitude >= 2^63 (sign in m): usable as an index operand only
+Big       == [t |-> "num", s |-> "big", m |-> 1, e |-> 0]
+NBig      == [t |-> "num", s |-> "big", m |-> -1, e |-> 0]
+IsBig(a)  == a.s = "big"
+Small(a)  == a.s \in {"inf", "ninf", "nan"} \/ (a.s = "fin" /\ Abs(a.m) < 2^14 /\ a.e <= 8)
 Exact(a)  == Small(a)
 \* two numbers that can be compared without overflow
-Cmpable(a, b) == (Small(a) /\ Small(b)) \/ (a.s # "fin") \/ (b.s # "fin") \/ (a.e = 0 /\ b.e = 0)
+Cmpable(a, b) == ~IsBig(a) /\ ~IsBig(b) /\ ((Small(a) /\ Small(b)) \/ (a.s # "fin") \/ (b.s # "fin") \/ (a.e = 0 /\ b.e = 0))
 
 \* numerators over the common denominator 2^MaxI(a.e, b.e)
 AlignL(a, b) == a.m * 2^(MaxI(a.e, b.e) - a.e)
 AlignR(a, b) == b.m * 2^(MaxI(a.e, b.e) - b.e)
 
 NumNeg(a) == CASE a.s = "fin"  -> Fin(-a.m, a.e)
+               [] a.s = "big"  -> [a EXCEPT !.m = -a.m]
                [] a.s = "inf"  -> NInf
                [] a.s = "ninf" -> Inf
                [] OTHER        -> NaN
@@ -135,7 +140,9 @@ RECURSIVE Zeros(_)
 Zeros(n) == IF n <= 0 THEN <<>> ELSE <<48>> \o Zeros(n - 1)
 
 \* shortest decimal that round-trips = the exact finite expansion (<= 15 digits)
+S_2p63 == <<57, 50, 50, 51, 51, 55, 50, 48, 51, 54, 56, 53, 52, 55, 55, 53, 56, 48, 56>>   \* 9223372036854775808
 NumCps(a) ==
+  IF a.s = "big" THEN (IF a.m < 0 THEN <<45>> ELSE <<>>) \o S_2p63 ELSE
   LET ab == Abs(a.m)
       ip == ab \div 2^a.e
       fr == ab % 2^a.e
